@@ -507,6 +507,39 @@ func writeOrdered(t testing.TB, reg *driver.RegistryDefault, tuples []*ketoapi.R
 	}
 }
 
+// writeOrderedRaw is writeOrdered without touching the registry's lazily
+// created mapper: ids are computed with UUIDv5 and rows are written with the persister.
+func writeOrderedRaw(t testing.TB, reg *driver.RegistryDefault, tuples []*ketoapi.RelationTuple) {
+	ctx := context.Background()
+	p := reg.Persister()
+	conn := p.Connection(ctx)
+	for i, rt := range tuples {
+		names := []string{rt.Object}
+		if rt.SubjectID != nil {
+			names = append(names, *rt.SubjectID)
+		} else {
+			names = append(names, rt.SubjectSet.Object)
+		}
+		ids, err := p.MapStringsToUUIDs(ctx, names...)
+		if err != nil {
+			t.Fatalf("map: %v", err)
+		}
+		it := &relationtuple.RelationTuple{Namespace: rt.Namespace, Object: ids[0], Relation: rt.Relation}
+		if rt.SubjectID != nil {
+			it.Subject = &relationtuple.SubjectID{ID: ids[1]}
+		} else {
+			it.Subject = &relationtuple.SubjectSet{Namespace: rt.SubjectSet.Namespace, Object: ids[1], Relation: rt.SubjectSet.Relation}
+		}
+		if err := p.WriteRelationTuples(ctx, it); err != nil {
+			t.Fatalf("write: %v", err)
+		}
+		if err := conn.RawQuery("UPDATE keto_relation_tuples SET shard_id = ? WHERE rowid = (SELECT MAX(rowid) FROM keto_relation_tuples)",
+			fmt.Sprintf("00000000-0000-4000-8000-%012d", i+1)).Exec(); err != nil {
+			t.Fatalf("order: %v", err)
+		}
+	}
+}
+
 func internalTuple(t testing.TB, reg *driver.RegistryDefault, rt *ketoapi.RelationTuple) *relationtuple.RelationTuple {
 	its, err := reg.ReadOnlyMapper().FromTuple(context.Background(), rt)
 	if err != nil {
